@@ -196,18 +196,23 @@ static long check_trylock_rule(void) {
 /* 1-worker style progress program: a blocked locker must give its worker away */
 static myth_mutex_t g_pm;
 static _Atomic int g_pflag, g_pblocked_started;
+static long g_prog_round;
 static void * p_blocker(void * a) { (void)a; atomic_store(&g_pblocked_started, 1); myth_mutex_lock(&g_pm); myth_mutex_unlock(&g_pm); return 0; }
 static void * p_setter(void * a) { (void)a; atomic_store(&g_pflag, 1); return 0; }
 static void progress_program(void) {
   myth_mutex_init(&g_pm, 0);
   atomic_store(&g_pflag, 0);
   myth_mutex_lock(&g_pm);
-  myth_thread_t b = myth_create(p_blocker, 0);   /* child-first: blocks on g_pm, must hand the worker back */
+  /* several lockers behind one holder (child-first: each blocks on g_pm and must hand the worker back);
+     the second and later waiters take the 'already has waiters' path of lock */
+  myth_thread_t b[4];
+  int nb = 1 + (int)(g_prog_round++ % 4), i;
+  for (i = 0; i < nb; i++) b[i] = myth_create(p_blocker, 0);
   myth_thread_t s = myth_create(p_setter, 0);
   int ok = hkm_wait_flag(&g_pflag, 50000000L);
-  HK_CHECK(ok, "mutex:blocked-locker-occupies-worker", "a third thread never ran while a locker was blocked");
+  HK_CHECK(ok, "mutex:blocked-locker-occupies-worker", "another thread never ran while %d lockers were blocked behind the holder", nb);
   myth_mutex_unlock(&g_pm);
-  myth_join(b, 0);
+  for (i = 0; i < nb; i++) myth_join(b[i], 0);
   myth_join(s, 0);
   myth_mutex_destroy(&g_pm);
 }
